@@ -307,7 +307,11 @@ CHECKS = {
           "and weighted-path variants with zero-length links, directed "
           "degrees) are compared with NumPy definitions on sub-blocks; "
           "compiled vs '_sparse' twins; argument-order symmetry; "
-          "whole-network limit. The n.s.i. cross measures are C02's terms.",
+          "whole-network limit. The n.s.i. cross measures are C02's terms. With both groups equal to the whole node set the "
+          "cross degree, the triangle count and the cross local clustering "
+          "are the degree, the linked neighbour pairs and the local "
+          "clustering of Model/GraphDefs.v (which the C03 check compares with "
+          "the library inside Coq).",
   "design_ref": "DESIGN.md section 5, C11",
   "note": "trusted: igraph path lengths (the sub-block relation is checked "
           "on them, not their values); most methods have no Coq model "
@@ -392,7 +396,9 @@ CHECKS = {
           "for every rational (proved for Base/F32), hence for trigonometric "
           "inputs in [-1,1] the cosine handed to arccos is within 16 * 2^-24 "
           "of the exact great-circle expression on the same inputs, and "
-          "clamping never moves it away from a value in [-1,1]. "
+          "clamping never moves it away from a value in [-1,1]; the "
+          "accumulated sum of squares of the Euclidean kernel is within "
+          "(d + 4) * 2^-23 relative of the exact sum in d dimensions. "
           "Correspondence inside "
           "Coq: the kernel's cosine matrix bit-for-bit; Euclidean roots "
           "bracket the model's rounded sum of squares; rect grids up to 4-D; "
